@@ -188,6 +188,12 @@ def run(ctx):
     ]:
         items = [item] if begin["p"] == b"a".hex() else [{"p": b"e".hex(), "n": 0, "dir": False, "id": b"cd".hex()}]
         cases.append({"mode": "hostile", "name": "frame-" + name, "root": b"t".hex(), "items": items, "begins": [begin], "noroot": True, "resume": rng.chance(1, 2), "_expect": expect})
+    # announced frame lengths between what the file can hold and the announced chunk size (a file shorter than one chunk, a short last chunk)
+    for n, chunk, lens in [(10, 1024, [9, 11, 512, 1024]), (3, 64, [4, 64]), (100, 64, [37, 63]), (65, 64, [2, 64])]:
+        for fl in lens:
+            it = {"p": b"a".hex(), "n": n, "dir": False, "id": b"ab".hex()}
+            cases.append({"mode": "hostile", "name": f"frame-len-{fl}-of-{n}-chunk{chunk}", "root": b"t".hex(), "items": [it],
+                          "begins": [{"p": b"a".hex(), "n": n, "chunk": chunk, "frame_len": fl}], "noroot": True, "resume": rng.chance(1, 2), "_expect": "error"})
     # a chunk frame for the EMPTY file (total 0): must be refused, not written
     cases.append({"mode": "hostile", "name": "frame-for-empty-file", "root": b"t".hex(), "items": [{"p": b"e".hex(), "n": 0, "dir": False, "id": b"cd".hex()}],
                   "begins": [{"p": b"e".hex(), "n": 0, "chunk": 64, "frame_len": 3, "force_frame": True}], "noroot": True, "resume": False, "_expect": "any"})
